@@ -225,6 +225,26 @@ def rule_N2s(prog, fixture=False):
                         "shift into the sign bit of %s" % x.type, func=f.name)
             else:
                 res.add(key, DISCHARGED, wx, what, "count is loop-invariant or bounded in the condition", func=f.name)
+    # the helpers take `int` and terminate for non-negative arguments only: no call hands them an unsigned 32/64-bit value
+    n_calls = 0
+    for g in sorted(prog.functions.values(), key=lambda f: (f.file, f.line, f.name)):
+        if g.file.endswith("coverage.cc") or g.get("implicit"):
+            continue
+        ci = 0
+        for x in g.walk():
+            if not (x.k == "CallExpr" and x.callee and x.callee.get("qn") in ("dsplib::nextpow2", "dsplib::ispow2") and x.call_args()):
+                continue
+            n_calls += 1
+            a0 = x.call_args()[0]
+            while a0.k == "ImplicitCastExpr" and a0.get("ck") in ("LValueToRValue", "NoOp") and a0.c:
+                a0 = a0.c[0]
+            src = a0.c[0] if (a0.k == "ImplicitCastExpr" and a0.get("ck") == "IntegralCast" and a0.c) else None
+            if src is not None and src.get("u") and (src.get("w") or 0) >= 32:
+                ci += 1
+                res.add("N2s:%s:unsigned-arg%d" % (fkey(g), ci), VIOLATED, "%s:%d" % (prog.rel(g.file), x.line), "%s in %s" % (x.text()[:50], g.short),
+                        "%s (%s) is converted implicitly to the int parameter: values from 2^31 on become negative, and the shift loop of "
+                        "%s never terminates for a negative argument" % (src.text()[:30], src.type, x.callee.get("qn").rsplit("::", 1)[-1]), func=g.name)
+    res.add("N2s:callers", DISCHARGED, "-", "%d calls of nextpow2 / ispow2" % n_calls, "counted; every unsigned argument is reported separately")
     return res
 
 
